@@ -51,11 +51,26 @@ class Rule:
             elif isinstance(doc.get("description"), str):
                 doc["description"] = [doc["description"]]
 
+            if not isinstance(doc, dict):
+                raise MalformedRuleSpec(
+                    f"Rule `doc` must be a string, a list of strings or a mapping, but "
+                    f"found: {doc!r}."
+                )
+
             if "description" not in doc:
                 doc["description"] = []
 
             if "examples" not in doc:
                 doc["examples"] = []
+
+            for doc_key in ("description", "examples"):
+                if not isinstance(doc[doc_key], list) or not all(
+                    isinstance(i, str) for i in doc[doc_key]
+                ):
+                    raise MalformedRuleSpec(
+                        f"Rule `doc` {doc_key} must be given as a list of strings, but "
+                        f"found: {doc[doc_key]!r}."
+                    )
 
             # strip final new lines:
             for idx, desc_i in enumerate(doc["description"]):
@@ -65,6 +80,11 @@ class Rule:
 
         cast = spec.get("cast")
         if cast:
+            if not isinstance(cast, dict):
+                raise MalformedRuleSpec(
+                    f"Rule `cast` must be a mapping from a type name to a type name, but "
+                    f"found: {cast!r}."
+                )
             cast = dict(cast)  # type names are replaced below; leave the spec as it is
         for cast_from in list((cast or {}).keys()):
             cast_to = cast.pop(cast_from)
